@@ -200,6 +200,15 @@ pub mod process {
     pub fn exit(code: i32) -> ! {
         dsim::proc_exit(code)
     }
+
+    /// `abort()` ends the process with SIGABRT (status 134 as a shell reports it)
+    pub fn abort() -> ! {
+        dsim::proc_exit(134)
+    }
+
+    pub fn id() -> u32 {
+        4242
+    }
 }
 
 pub mod env {
